@@ -1651,7 +1651,12 @@ impl Archive {
                 if data.len() <= 64 {
                     log::debug!("Before decrypt: {:02X?}", &data);
                 }
-                decrypt_file_data(&mut data, key);
+                decrypt_unsectored_body(
+                    &mut data,
+                    key,
+                    file_info.is_single_unit(),
+                    self.header.sector_size(),
+                );
                 if data.len() <= 64 {
                     log::debug!("After decrypt: {:02X?}", &data);
                 }
@@ -2122,7 +2127,12 @@ impl Archive {
                     key,
                     data.len()
                 );
-                decrypt_file_data(&mut data, key);
+                decrypt_unsectored_body(
+                    &mut data,
+                    key,
+                    file_info.is_single_unit(),
+                    self.header.sector_size(),
+                );
             }
 
             // Handle compression for single unit files
@@ -2750,6 +2760,21 @@ impl Archive {
                 log::debug!("Failed to read potential strong signature: {e}");
                 Ok(SignatureStatus::None)
             }
+        }
+    }
+}
+
+/// Decrypt the body of a file that is stored without a sector offset table.
+///
+/// A single-unit file is one cipher unit (key). A multi-sector file without COMPRESS/IMPLODE
+/// consists of `sector_size` byte sectors stored back to back, each encrypted separately with
+/// `key + sector index`, exactly like the sectors of a compressed file.
+fn decrypt_unsectored_body(data: &mut [u8], key: u32, single_unit: bool, sector_size: usize) {
+    if single_unit || sector_size == 0 {
+        decrypt_file_data(data, key);
+    } else {
+        for (i, sector) in data.chunks_mut(sector_size).enumerate() {
+            decrypt_file_data(sector, key.wrapping_add(i as u32));
         }
     }
 }
